@@ -2,4 +2,5 @@ import ArroyProofs.AuditCmd
 import ArroyProofs.Properties.C20
 import ArroyProofs.Properties.Unconditional
 import ArroyProofs.Properties.Reachable
+import ArroyProofs.Properties.C04Split
 #audit Arroy.C20
